@@ -59,7 +59,7 @@ def apalache(workdir, tla, invs, timeout=APALACHE_TIMEOUT):
     os.makedirs(tmp, exist_ok=True)
     env = dict(os.environ)
     env["TMPDIR"] = tmp
-    env["JVM_ARGS"] = "-Xmx1500m -XX:ActiveProcessorCount=2 -XX:TieredStopAtLevel=1"
+    env["JVM_ARGS"] = "-Xmx1500m -XX:ActiveProcessorCount=2"
     env["JVM_GC_ARGS"] = "-XX:+UseSerialGC"
     cmd = ["apalache-mc", "check", "--length=0", "--init=Init", "--inv=" + ",".join(invs), "--out-dir=" + out,
            tla]
@@ -100,6 +100,16 @@ def apalache(workdir, tla, invs, timeout=APALACHE_TIMEOUT):
         return res
     res["status"] = "error"
     return res
+
+
+def apalache_parallelism():
+    """4 Apalache JVMs at a time on a busy machine, 8 when it is idle (each run is ~5 CPU-seconds)."""
+    if os.environ.get("C10_APALACHE_PAR"):
+        return int(os.environ["C10_APALACHE_PAR"])
+    try:
+        return 8 if os.getloadavg()[0] < 8 else 4
+    except OSError:
+        return 4
 
 
 def instances_for(ctx, layouts):
@@ -191,7 +201,7 @@ def run(ctx):
 
     # ---- 3. Apalache: canary first, then every obligation (parallel)
     results = {}
-    with concurrent.futures.ThreadPoolExecutor(max_workers=int(os.environ.get("C10_APALACHE_PAR", "4"))) as ex:
+    with concurrent.futures.ThreadPoolExecutor(max_workers=apalache_parallelism()) as ex:
         futs = {}
         futs[ex.submit(apalache, gen, "BitPackCanary.tla", ["SymbolicFloor"])] = "canary-true"
         futs[ex.submit(apalache, gen, "BitPackCanary.tla", ["Falsifiable"])] = "canary-false"
